@@ -12,7 +12,8 @@ PROP = "C16"
 LEVEL = "other"
 MODULE = "PropC16"
 THEOREMS = ["C16_script_runs_statement_by_statement", "C16_final_line_break_is_irrelevant",
-            "C16_inside_string_nothing_counts", "C16_inside_comment_nothing_counts", "C16_comment_ends_at_line_break"]
+            "C16_inside_string_nothing_counts", "C16_inside_comment_nothing_counts", "C16_comment_ends_at_line_break",
+            "C16_modes_bind_the_same_globals"]
 IMPORTS = ["Base", "Repl", "ReplProofs", "CorrRepl"]
 
 CTX = re.compile(rb"memory context [^\n]*\n")
